@@ -4,7 +4,7 @@
    The model is of the REPAIRED code (fix: commits listed in known_findings.json); definitions
    with an `orig` flag keep the unchanged behaviour for the …_refuted witnesses.
    ext = IPv6HopByHop / IPv6Destination; ip6 = IPv6. *)
-From GP Require Import Base N6Lib Lip6Model Lip6Proofs Lip6Rt Lip6Rt2.
+From GP Require Import Base N6Lib Lip6Model Lip6Proofs Lip6Rt Lip6Rt2 Lip6Rt3 Lip6Idem.
 Open Scope Z_scope.
 
 (* ------------------------------------------------------------------ C19 *)
@@ -103,6 +103,18 @@ Proof.
 Qed.
 Print Assumptions C07_ip6_junk_free.
 
+(* a second SerializeTo of the layer exactly as the first call left it (FixLengths has rewritten the
+   length, the next header, the options' lengths, the jumbo option) returns the same bytes or error
+   and leaves the same layer: for every layer value of the Go types, every payload (jumbograms
+   included), every option set, whatever the two buffers held *)
+Theorem C07_ip6_idempotent :
+  (forall l payload fx cs j1 j2, ip6_wf l ->
+     ip6_serialize (snd (ip6_serialize l payload fx cs j1)) payload fx cs j2 = ip6_serialize l payload fx cs j1) /\
+  (forall l payload fx cs j1 j2, ext_wf l ->
+     ext_serialize (snd (ext_serialize l payload fx cs j1)) payload fx cs j2 = ext_serialize l payload fx cs j1).
+Proof. split; [exact ip6_serialize_idem|exact ext_serialize_idem]. Qed.
+Print Assumptions C07_ip6_idempotent.
+
 Example C07_ip6_nonvacuous :
   ext_wf (mkExt 59 0 0 [mkTlv 5 9 0 [1] 0 0; mkTlv 7 0 0 [1; 2; 3; 4] 8 2] [] []) /\
   fst (ext_serialize (mkExt 59 0 0 [mkTlv 5 9 0 [1] 0 0; mkTlv 7 0 0 [1; 2; 3; 4] 8 2] [] []) [9] true true (repeat 170 40))
@@ -147,10 +159,9 @@ Proof. reflexivity. Qed.
 
 (* IPv6: the full statement (every in-range layer value with or without hop-by-hop header, every
    payload incl. jumbograms) is kept as a Definition and is NOT proved as such.  Proved below
-   (…_partial): the fixed header alone — no hop-by-hop header, payload of 1..65535 octets.  The
-   hop-by-hop and jumbogram paths of IPv6.SerializeTo/DecodeFromBytes are covered by the
-   extension-header theorems above plus the rt/nrt correspondence cases (tested, not proved end
-   to end).  Three clauses of the full statement are false for the repaired code and are recorded
+   (…_partial): the fixed header alone (payload of 1..65535 octets) and the hop-by-hop path without
+   jumbogram.  The jumbogram path of the round trip (payload > 65535) is covered by the
+   extension-header theorems plus the rt/nrt correspondence cases (tested, not proved end to end).  Three clauses of the full statement are false for the repaired code and are recorded
    as known findings (Length 0 for an empty payload is rejected; a jumbogram's Payload includes
    the hop-by-hop header; hop-by-hop header + payload of 65528..65535 octets is not serializable). *)
 Definition C06_ip6_roundtrip_statement : Prop :=
@@ -168,6 +179,27 @@ Theorem C06_ip6_roundtrip_partial : forall l payload junk, ip6_okb l = true -> p
     p_length l2 = n6_len payload.
 Proof. exact ip6_roundtrip_nohbh. Qed.
 Print Assumptions C06_ip6_roundtrip_partial.
+
+(* ... and with a hop-by-hop header (no jumbogram): every in-range layer whose hop-by-hop options
+   contain no jumbo option, every payload such that header + payload fit 65535 octets: decoding the
+   written bytes succeeds without truncation flag, Length is header + payload, the payload comes back
+   (on the IPv6 layer and on the attached hop-by-hop layer) and all fields agree with the layer
+   as FixLengths left it, the hop-by-hop options up to padding *)
+Theorem C06_ip6_roundtrip_hbh_partial : forall l h payload junk, ip6_okb l = true -> p_hbh l = Some h ->
+  no_jumbo (e_opts h) -> bytes_ok payload -> ext_size h + n6_len payload <= 65535 ->
+  exists bytes l2 h2,
+    ip6_roundtrip l payload junk = (Ok bytes, (l2, Ok tt, false)) /\
+    p_payload l2 = payload /\ p_hbh l2 = Some h2 /\ e_payload h2 = payload /\
+    p_length l2 = ext_size h + n6_len payload /\
+    ip6_fields l2 = ip6_fields (snd (ip6_serialize l payload true true junk)).
+Proof. exact ip6_roundtrip_hbh. Qed.
+Print Assumptions C06_ip6_roundtrip_hbh_partial.
+
+Example C06_ip6_hbh_nonvacuous :
+  ip6_okb (mkIp6 6 0 0 0 0 64 (repeat 254 16) (repeat 1 16)
+            (Some (mkExt 17 0 0 [mkTlv 5 0 0 [1; 2] 0 0; mkTlv 7 0 0 [1; 2; 3; 4] 4 2] [] [])) [] []) = true /\
+  ext_size (mkExt 17 0 0 [mkTlv 5 0 0 [1; 2] 0 0; mkTlv 7 0 0 [1; 2; 3; 4] 4 2] [] []) = 16.
+Proof. split; reflexivity. Qed.
 
 Example C06_ip6_partial_nonvacuous :
   ip6_okb (mkIp6 6 184 703710 0 17 64 (repeat 254 16) (repeat 1 16) None [] []) = true.
